@@ -31,7 +31,7 @@ def gen_case(rng, tier):
     if r < 0.80:
         n = rng.randint(4, 30) if not thorough else rng.randint(4, 70)
         return {"kind": "cpp_cqm", "ops": Q.gen_cqm_ops(rng, n)}
-    if thorough and r > 0.985:
+    if thorough and r > 0.9975:
         return {"kind": "py_vg", "calls": P.gen_py_calls(rng, 6)}
     return {"kind": "py", "calls": P.gen_py_calls(rng, 6)}
 
@@ -92,20 +92,35 @@ def run_models(case):
             "kind": "cpp_models", "observed": {"executed": len(executed), "skipped": skipped, "ops": kinds}}
 
 
+_DRIVER_GXX = None
+
+
+def driver_gxx():
+    """the GCC build (same flags, same sanitizers) used for the cq.* cases: Model/Expr.v mirrors GCC's
+    right-to-left evaluation of add_quadratic(enforce_variable(u), enforce_variable(v))"""
+    global _DRIVER_GXX
+    if _DRIVER_GXX is None:
+        _DRIVER_GXX = K.ensure_driver(compilers=("g++",))
+    return _DRIVER_GXX
+
+
 def run_cqm(case):
-    exe, cxx, err = driver()
+    exe, cxx, err = driver_gxx()
     if exe is None:
-        return {"py_fail": "cannot compile cpp/driver.cpp against the tree under test:\n" + str(err)[-3000:],
+        return {"py_fail": "cannot compile cpp/driver.cpp (g++) against the tree under test:\n" + str(err)[-3000:],
                 "features": {"kind": "cpp_cqm", "compile": True}}
     S = K.Session(exe)
     S.send("case c")
     cqms = Q.empty_cqms()
     executed = []
+    steps = []
     skipped = 0
+    modelled = 0
     for op in case["ops"]:
         if not Q.cqm_op_valid(op, cqms):
             skipped += 1
             continue
+        prev = cqms
         d = S.send(Q.cqm_op_text(op))
         if "dead" in d:
             d["at"] = Q.cqm_op_text(op)
@@ -113,6 +128,9 @@ def run_cqm(case):
             return death_record(case, "cpp_cqm", d, len(executed))
         executed.append(op)
         cqms = d["cqms"]
+        qop = Q.coq_qop(op, prev)
+        modelled += qop is not None
+        steps.append(f"({'None' if qop is None else '(Some ' + qop + ')'}, {clist([Q.coq_qobs(c) for c in cqms])})")
         if not K.exact_enough([e for c in cqms for e in [c["obj"]] + c["cons"]]):
             break
     end = S.close()
@@ -120,8 +138,8 @@ def run_cqm(case):
         end["at"] = "<exit>"
         end["executed"] = executed
         return death_record(case, "cpp_cqm", end, len(executed))
-    return {"coq": None, "features": {"kind": "cpp_cqm"}, "nontrivial": len(executed) >= 3, "kind": "cpp_cqm",
-            "observed": {"executed": len(executed), "skipped": skipped}}
+    return {"coq": clist(steps), "check_fn": "qcheck", "features": {"kind": "cpp_cqm"}, "nontrivial": len(executed) >= 3,
+            "kind": "cpp_cqm", "observed": {"executed": len(executed), "skipped": skipped, "modelled": modelled}}
 
 
 def run_py(case):
